@@ -48,6 +48,14 @@ def generate(rng, tier):
             bad = os.path.join(fdir, "m%05d_bad.log.gz" % i)
             open(bad, "w").write("this is not gzip\n" * 3)
             payloads.append(("cat: %s regex:noop " % bad).encode().hex())      # last: the command indices of the others stay as they are
+        if i % 10 == 6 and len(sizes) >= 2:
+            # a path the permission check refuses (a directory, a dangling link): nothing to count, the run still ends
+            ref = os.path.join(fdir, "m%05d_refused" % i)
+            if rng.random() < 0.5:
+                os.makedirs(ref, exist_ok=True)
+            elif not os.path.lexists(ref):
+                os.symlink("nowhere-%d" % i, ref)
+            payloads.append(("cat: %s regex:noop " % ref).encode().hex())
         # every third session shares its cat limiter with the sessions running next to it (the server-wide limit)
         cases.append({"kind": "server", "payloads": payloads, "cat_limit": rng.choice([1, 2, 3]), "private_limiter": i % 3 != 1,
                       "gap_ms": rng.choice([0, 0, 0, 1, 10]), "read_delay_us": rng.choice([0, 0, 200]),
